@@ -120,13 +120,17 @@ Lemma plan_len o s :
 Proof.
   destruct o as [k|dims| |axes| |vs|e]; simpl; auto.
   - (* getitem *)
-    destruct k as [items|m bits|ixs]; simpl.
-    + destruct (basic_sels s items) as [sels|] eqn:E; [|exact I].
+    destruct k as [items|m bits|ixs|kb ka]; simpl.
+    + unfold plan_basic. destruct (basic_sels s items) as [sels|] eqn:E; [|exact I].
       rewrite size_atleast1, (kept_shape_size _ _ _ E).
       apply sel_positions_length. rewrite map_length. eapply basic_sels_length; exact E.
     + destruct (_ && _ && _)%bool; [|exact I]. rewrite blocks_length. simpl. reflexivity.
     + destruct s as [|n rest]; [exact I|]. destruct (norm_all n ixs); [|exact I].
       rewrite blocks_length. reflexivity.
+    + destruct (expand_ellipsis s kb ka) as [items|]; [|exact I].
+      unfold plan_basic. destruct (basic_sels s items) as [sels|] eqn:E; [|exact I].
+      rewrite size_atleast1, (kept_shape_size _ _ _ E).
+      apply sel_positions_length. rewrite map_length. eapply basic_sels_length; exact E.
   - (* reshape *)
     unfold plan_reshape. destruct (resolve_shape (size s) dims) as [s'|] eqn:E; [|exact I].
     eapply resolve_shape_size; exact E.
